@@ -210,6 +210,18 @@ func (in *instrumenter) racyPoint(s ast.Stmt) {
 		return
 	}
 	isRacy := func(e ast.Expr) bool {
+		if id, ok := e.(*ast.Ident); ok {
+			// a contended local variable captured by closures: "name@file:line" of its declaration
+			obj, _ := in.info.Uses[id].(*types.Var)
+			if obj == nil {
+				obj, _ = in.info.Defs[id].(*types.Var)
+			}
+			if obj == nil || obj.IsField() {
+				return false
+			}
+			dp := in.fset.Position(obj.Pos())
+			return racyFields[fmt.Sprintf("%s@%s:%d", obj.Name(), filepath.Base(dp.Filename), dp.Line)]
+		}
 		sel, ok := e.(*ast.SelectorExpr)
 		if !ok {
 			return false
@@ -240,10 +252,11 @@ func (in *instrumenter) racyPoint(s ast.Stmt) {
 	}
 	var target ast.Node = s
 	if ifs, ok := s.(*ast.IfStmt); ok {
-		if ifs.Init != nil {
-			return
-		}
 		target = ifs.Cond
+		if ifs.Init != nil {
+			// `if x := f(a, b); cond`: the reads happen in the init statement and the condition
+			target = &ast.BlockStmt{List: []ast.Stmt{ifs.Init, &ast.ExprStmt{X: ifs.Cond}}}
+		}
 	}
 	if fs, ok := s.(*ast.ForStmt); ok {
 		// the loop head (init and condition) reads a contended field: one point before the loop
@@ -270,6 +283,17 @@ func (in *instrumenter) racyPoint(s ast.Stmt) {
 		for _, l := range as.Lhs {
 			if isRacy(l) {
 				store = true
+				if _, isId := l.(*ast.Ident); isId {
+					// x = f(...): the store follows the call, a point before the statement would come too early
+					for _, r := range as.Rhs {
+						ast.Inspect(r, func(n ast.Node) bool {
+							if _, ok := n.(*ast.CallExpr); ok {
+								store = false
+							}
+							return true
+						})
+					}
+				}
 			}
 		}
 		for _, r := range as.Rhs {
